@@ -3,6 +3,7 @@ CONSTANTS Kinds = {"plain"}
           MixedServerSet = {}
           MixedCoreServers = {}
           MixedMethKeys = {"G", "P", "GP"}
+          PlainMethKeys = {"G", "P", "GP"}
           MaxLen = 3
           MaxT = 2
           ServerSet = {"none", "psfirst"}
